@@ -12,6 +12,10 @@ FRAMES_PER_PACKET and PACKET_BACKLOG_SIZE are the regenerated `Gen.C16` constant
   ctrl <datagram hex>            control datagram against the final backlog of the last run
       → `err` (the decode raised) | `<resent;resent;…|->`, resent = `<first 4 bytes hex>:<length>:<digest>`
   ctrlat <k> <datagram hex>      same against the backlog after the first k packets of the last run
+  load <seq:hex,seq:hex,…|->     replace the remembered datagrams by observed ones (an encrypted v2 run: the
+                                 cipher is a parameter of the model, so its datagrams come from the wire);
+                                 the backlog is rebuilt from them by the model's own `Fifo.set`
+      → `ok <keys csv>` | `raised`
   fifo <limit> <ops csv>         ops `s<key>` (set, value = key as 2 bytes), `g<key>`, `c<key>`
       → per op `ok|raise`, `<hex>|raise`, `1|0`; then `|` and the keys
   reset
@@ -87,6 +91,20 @@ def handle (s : DState) (ws : List String) : DState × String :=
          s!"{r.status.toStr} {st.rtpseq} {st.headTs} {st.paddingSent} " ++
          s!"{joinWith "," (st.backlog.keys.map toString)} {joinWith ";" (r.sent.map showSent)}")
     | _, _, _, _, _, _, _ => (s, "bad-op")
+  | ["load", items] =>
+    let parse (w : String) : Option Sent :=
+      match w.splitOn ":" with
+      | [k, h] =>
+        match k.toNat?, ofHex? h with
+        | some k, some d => some { pkt := { marker := false, seq := k, ts := 0, ssrc := 0, payload := [] }, dgram := d }
+        | _, _ => none
+      | _ => none
+    match (if items == "-" then some [] else (items.splitOn ",").mapM parse) with
+    | some es =>
+      match backlogAfter Gen.C16.packetBacklogSize es with
+      | some bl => ({ sent := es, backlog := bl }, s!"ok {joinWith "," (bl.keys.map toString)}")
+      | none => (s, "raised")
+    | none => (s, "bad-op")
   | ["ctrl", d] =>
     match ofHex? d with
     | some d => (s, showCtrl (controlReceived s.backlog d))
